@@ -46,9 +46,21 @@ pub fn map<T: Send, F: Fn(usize) -> T + Sync>(n: usize, f: F) -> Vec<T> {
 /// to the parent. Used where the work is dominated by mmap/munmap/open (kernel locks that are per
 /// process: threads do not scale there, processes do). Must be called while single-threaded.
 pub fn fork_reduce<A>(n: usize, init: impl Fn(usize) -> A, step: impl Fn(&mut A, usize), ser: impl Fn(A) -> serde_json::Value) -> Vec<serde_json::Value> {
+    fork_reduce_ex(n, init, step, ser)
+        .into_iter()
+        .map(|r| match r {
+            Ok(v) => v,
+            Err((idx, status)) => super::report::machinery_failure(&format!("worker process ended abnormally (raw status {status}) while working on item {idx}")),
+        })
+        .collect()
+}
+
+/// As `fork_reduce`, but a worker that dies (signal, abort, non-zero exit) is reported as
+/// Err((index of the item it was working on, raw wait status)) instead of stopping the run.
+pub fn fork_reduce_ex<A>(n: usize, init: impl Fn(usize) -> A, step: impl Fn(&mut A, usize), ser: impl Fn(A) -> serde_json::Value) -> Vec<Result<serde_json::Value, (usize, i32)>> {
     use std::io::{Read, Write};
     use std::os::unix::io::FromRawFd;
-    let nproc = threads().min(n.max(1));
+    let nproc = threads().min(n.max(1)).min(256);
     // shared work counter
     // SAFETY: anonymous shared mapping of one page, used as an AtomicUsize by parent and children
     let counter = unsafe {
@@ -69,13 +81,17 @@ pub fn fork_reduce<A>(n: usize, init: impl Fn(usize) -> A, step: impl Fn(&mut A,
             if pid == 0 {
                 libc::close(fds[0]);
                 let mut acc = init(c);
+                // SAFETY: slot c+1 of the shared page (nproc <= 256 < 512 slots)
+                let progress = &*((counter as *const AtomicUsize).add(c + 1));
                 loop {
                     let i = counter.fetch_add(1, Ordering::SeqCst);
                     if i >= n {
                         break;
                     }
+                    progress.store(i + 1, Ordering::SeqCst);
                     step(&mut acc, i);
                 }
+                progress.store(0, Ordering::SeqCst);
                 let v = ser(acc);
                 let mut f = std::fs::File::from_raw_fd(fds[1]);
                 let _ = f.write_all(serde_json::to_string(&v).unwrap().as_bytes());
@@ -103,16 +119,22 @@ pub fn fork_reduce<A>(n: usize, init: impl Fn(usize) -> A, step: impl Fn(&mut A,
         .collect();
     let mut out = vec![];
     let outputs: Vec<String> = readers.into_iter().map(|h| h.join().unwrap_or_default()).collect();
-    for ((pid, _), s) in kids.iter().zip(outputs) {
+    for (c, ((pid, _), s)) in kids.iter().zip(outputs).enumerate() {
         let mut status = 0;
         // SAFETY: waiting for our own child
         unsafe { libc::waitpid(*pid, &mut status, 0) };
         if !libc::WIFEXITED(status) || libc::WEXITSTATUS(status) != 0 {
-            let code = if libc::WIFEXITED(status) { libc::WEXITSTATUS(status) } else { -1 };
-            super::report::machinery_failure(&format!("worker process ended abnormally (status {code}, raw {status})"));
+            if libc::WIFEXITED(status) && libc::WEXITSTATUS(status) == 2 {
+                // the worker reported a machinery failure itself (message already printed)
+                std::process::exit(2);
+            }
+            // SAFETY: slot c+1 of the shared page
+            let at = unsafe { (*((counter as *const AtomicUsize).add(c + 1))).load(Ordering::SeqCst) };
+            out.push(Err((at.saturating_sub(1), status)));
+            continue;
         }
         match serde_json::from_str(&s) {
-            Ok(v) => out.push(v),
+            Ok(v) => out.push(Ok(v)),
             Err(e) => super::report::machinery_failure(&format!("worker process returned unparsable output: {e}")),
         }
     }
